@@ -24,7 +24,7 @@ def many_ids(rng, version, hist):
     return hist
 
 
-CFG = {"kinds": ["base", "base", "tcp", "mqtt", "base-nocb", "mqtt-nocb"], "quick": 260, "thorough": 6000, "persist": ["none", "json", "pickle"], "lengths": [10, 20, 35],
+CFG = {"kinds": ["base", "base", "tcp", "mqtt", "base-nocb", "mqtt-nocb", "base-raisecb", "tcp-raisecb"], "quick": 260, "thorough": 6000, "persist": ["none", "json", "pickle"], "lengths": [10, 20, 35],
        "bias": {"idreq": 8, "save": 2, "restart": 3, "pres_node": 2}, "malformed": 0.1, "post": [many_ids]}
 
 
